@@ -20,6 +20,13 @@ func (group *Group) AddRtmpPushSession(url string, session *rtmp.PushSession) {
 	Log.Debugf("[%s] [%s] add rtmp PushSession into group.", group.UniqueKey, session.UniqueKey())
 	group.mutex.Lock()
 	defer group.mutex.Unlock()
+	// 注意，推流session是异步建立的，建立成功时输入流可能已经结束了（stopPushIfNeeded执行时还看不到这个session），
+	// 此时如果挂到group上，这个session就没有人关闭了，所以直接关闭。
+	if group.rtmpPubSession == nil && group.rtspPubSession == nil {
+		Log.Infof("[%s] [%s] relay push established but input session already gone, dispose it.", group.UniqueKey, session.UniqueKey())
+		_ = session.Dispose()
+		return
+	}
 	if group.url2PushProxy != nil {
 		group.url2PushProxy[url].pushSession = session
 	}
